@@ -5,6 +5,7 @@ out=/tmp/reverify.txt; : > $out
 for d in seeded/*/; do
   id=$(basename $d); p=${id%%-*}
   [ -n "$1" ] && [[ "$id" != $1* ]] && continue
+  grep -q '"retired"' seeded/$id/meta.json && continue
   tools/keep_seed.py seeded/$id $p $id >> $out 2>&1
 done
 echo DONE >> $out
